@@ -235,3 +235,81 @@ def window_invariants(facts):
             else:
                 out.append(ob("cpc.window", key, e["loc"], "violated", "first_interesting_column is recomputed as `%s` without the clamp to the new window offset: when no surprising value lies in the early zone it lands beyond the window and the `col < first_interesting_column` shortcut then silently drops coupons whose column is inside the window" % txt(e["r"]), fn["qname"]))
     return out
+
+
+def union_result_merged(facts):
+    """cpc_union: every non-empty sketch the union hands out is marked as merged (was_merged = true, i.e. built with has_hip =
+    false): the HIP estimator is only valid for a sketch fed by one stream, so an unmarked result reports a history-dependent
+    estimate and serializes a HIP accumulator.  Decided per return statement of the get_result* functions."""
+    from astu import functions_by, stmts_of, strip_all, strip, txt, short, walk, local_decls
+    fns = functions_by(facts, ["cpc"])
+    out = []
+    n = 0
+    for pat, fn in sorted(fns.items()):
+        if not (fn.get("rect") == "datasketches::cpc_union_alloc" and fn["name"].startswith("get_result")):
+            continue
+        decls = local_decls(fn)
+        st = stmts_of(fn["body"])
+        idx = 0
+        rets = []
+        walk(fn["body"], lambda x: rets.append(x) if x.get("k") == "Return" else None)
+        for r in rets:
+            key = "%s:return#%d:marked-merged" % (short(fn["patq"]), idx)
+            idx += 1
+            n += 1
+            e = strip_all(r.get("e") or {})
+            while e.get("k") == "Construct" and len(e.get("args", [])) == 1 and strip_all(e["args"][0]).get("k") in ("Ref", "Construct", "Call"):
+                e = strip_all(e["args"][0])
+            if e.get("k") == "Call" and (e.get("cname") or "").startswith("get_result"):
+                out.append(ob("cpc.union-result", key, r["loc"], "discharged", "delegates to %s" % e["cname"], fn["qname"]))
+            elif e.get("k") == "Construct" and len(e.get("args", [])) >= 6:
+                hh = strip_all(e["args"][5])
+                ok = hh.get("k") == "Bool" and not hh.get("b", hh.get("v"))
+                out.append(ob("cpc.union-result", key, r["loc"], "discharged" if ok else "violated", "built with has_hip = false" if ok else "result built with has_hip = `%s`: a union result must not carry a HIP estimate" % txt(hh), fn["qname"]))
+            elif e.get("k") == "Construct" and len(e.get("args", [])) == 3:
+                out.append(ob("cpc.union-result", key, r["loc"], "discharged", "fresh empty sketch", fn["qname"]))
+            elif e.get("k") == "Ref" and e.get("dk") == "local" and e.get("d") in decls:
+                marks = []
+                walk(fn["body"], lambda x: marks.append(x) if x.get("k") == "Assign" and x.get("op") == "=" and strip(x["l"]).get("k") == "Member" and strip(x["l"]).get("f") == "was_merged" and strip_all(strip(x["l"]).get("b") or {}).get("d") == e["d"] and strip_all(x["r"]).get("k") == "Bool" and strip_all(x["r"]).get("b", strip_all(x["r"]).get("v")) else None)
+                if marks:
+                    out.append(ob("cpc.union-result", key, r["loc"], "discharged", "%s.was_merged = true before the return" % e["n"], fn["qname"]))
+                else:
+                    out.append(ob("cpc.union-result", key, r["loc"], "violated", "returns the local copy `%s` of the accumulator without `%s.was_merged = true`: when the accumulator was taken over from a single input (no table walk) the result keeps that sketch's HIP estimate" % (e["n"], e["n"]), fn["qname"]))
+            else:
+                out.append(ob("cpc.union-result", key, r["loc"], "violated", "returns `%s`, a copy of the accumulator that is not marked as merged on this path (the accumulator may be a sketch taken over unchanged from one input: its HIP flag survives)" % txt(e)[:60], fn["qname"]))
+    if n < 4:
+        out.append(ob("cpc.union-result", "anchor", "", "unrecognised", "only %d return statements of cpc_union get_result* found" % n, ""))
+    return out
+
+
+def flavor_aware_or(facts):
+    """cpc_union: the surprising-value table and the window of a sketch mean different things per flavor (in SLIDING mode the early
+    zone of the table is inverted), so OR-ing them into the union's bit matrix is only valid after the flavor of THAT sketch was
+    determined in the same function (cases B / C of the merge); any other sketch has to be converted with build_bit_matrix()."""
+    from astu import functions_by, strip_all, strip, txt, short, walk
+    fns = functions_by(facts, ["cpc"])
+    out = []
+    n = 0
+    for pat, fn in sorted(fns.items()):
+        if fn.get("rect") != "datasketches::cpc_union_alloc":
+            continue
+        calls = []
+        walk(fn["body"], lambda x: calls.append(x) if x.get("k") == "Call" and x.get("cname") in ("or_table_into_matrix", "or_window_into_matrix") else None)
+        if not calls:
+            continue
+        flav = []
+        walk(fn["body"], lambda x: flav.append(x) if x.get("k") == "Call" and x.get("cname") == "determine_flavor" and x.get("obj") is not None else None)
+        known = {txt(f["obj"]).lstrip("*") for f in flav}
+        for j, c in enumerate(calls):
+            n += 1
+            a0 = strip_all(c["args"][0]) if c.get("args") else {}
+            owner = txt(a0.get("b")) if a0.get("k") == "Member" else "?"
+            owner = owner.lstrip("*")
+            key = "%s:%s#%d:flavor-known" % (short(fn["patq"]), c["cname"], j)
+            if owner in known:
+                out.append(ob("cpc.flavor-or", key, c["loc"], "discharged", "flavor of `%s` determined in this function before its table / window is OR-ed into the matrix" % owner, fn["qname"]))
+            else:
+                out.append(ob("cpc.flavor-or", key, c["loc"], "violated", "%s(%s) in %s: the flavor of `%s` is never determined here - for a SLIDING sketch the table holds inverted early-zone entries and the resulting matrix is wrong; an arbitrary sketch must be converted with build_bit_matrix()" % (c["cname"], txt(a0)[:50], fn["name"], owner), fn["qname"]))
+    if n < 3:
+        out.append(ob("cpc.flavor-or", "anchor", "", "unrecognised", "only %d or_*_into_matrix calls found" % n, ""))
+    return out
